@@ -281,7 +281,9 @@ def cases(tier, seed):
                  ["-", "1", "E", "-", "10"], ["1", "E", "3"], ["0.00004"], ["65535"], ["1.5", "E", "+", "2"], ["-", ".5"], ["12."], ["007"],
                  # the top of the range (Color BASIC and BASIC09 reals reach 1.70141183E+38) and the bottom
                  ["1", "E", "38"], ["1.5", "E", "38"], ["-", "1.7", "E", "38"], ["17", "E", "37"], [".1", "E", "39"], ["9.99", "E", "37"],
-                 ["3", "E", "-", "38"], ["1", "E", "-", "37"]]
+                 ["3", "E", "-", "38"], ["1", "E", "-", "37"],
+                 # items whose text is longer than a dozen characters (nothing may cut them short on the way to the filter)
+                 ["2000000000000"], ["12345678.9012"], ["-", "98765432.125"], [".000012345678"], ["1500000000000000"], ["123456789012345678"]]
     # degenerate spellings Color BASIC reads as numbers all the same: a lone point is zero, a missing exponent is E0
     odd = [([".",], 0.0), (["+", "."], 0.0), (["-", "."], 0.0), ([".", "E", "3"], 0.0), (["5", "E"], 5.0), (["5", "E", "+"], 5.0), (["-", "5", "E", "-"], -5.0),
            (["+", "7"], 7.0), (["-", "-", "7"], 7.0), (["0"], 0.0), (["-", "0"], 0.0), (["00.50"], 0.5)]
